@@ -527,4 +527,43 @@ pub fn run(rec: &mut Recorder, w: &mut World, tier: &str, seed: u64) {
         else { rec.nontrivial_case(&label); rec.count_n("decisions-checked", (sc.threads * sc.rounds * sc.reqs.len()) as u64); }
         rec.exec(w, "e.cached\tfalse");
     }
+    // ---- a domain-matching function: one request domain matches several stored domains, so has_link walks several
+    //      graphs per call; its result cache (feature `cached`) is shared by all threads (implementation only: pattern
+    //      domains are outside the Lean role-graph model; the serial rows come from the crate itself, single-threaded) ----
+    let dk = ks.iter().find(|k| k.name == "domains").unwrap().clone();
+    for si in 0..(if thorough { 4 } else { 1 }) * rec.budget as usize {
+        let m = model_of(&dk, E_ALLOW, false, "", false);
+        rec.begin();
+        m.emit(rec, w);
+        let n_users = 300;
+        let mut lines: Vec<Vec<String>> = vec![sv(&["p", "p", "admin", "d1", "data1", "read"])];
+        // every user is a node of TWO matched domains, but reaches `admin` in only one of them
+        let dn = ["*", "d1", "d*"];
+        for i in 0..n_users {
+            lines.push(sv(&["g", "g", &format!("u{}", i), "admin", dn[i % 3]]));
+            lines.push(sv(&["g", "g", &format!("u{}", i), "guest", dn[(i + 1 + i / 3 % 2) % 3]]));
+        }
+        let new_line = format!("e.new\tmemory\t{}\t\t-", enc_lists(&lines));
+        if rec.exec_impl_only(w, &new_line) != "ok" { rec.fail("new-failed", "cannot build the domain-matching enforcer".into()); continue; }
+        rec.exec_impl_only(w, "e.rolematch\t-\tkeyMatch");
+        rec.exec_impl_only(w, "e.build");
+        let mut setup: Vec<String> = rec.current.iter().map(|l| l.trim_start_matches('!').to_string()).collect();
+        setup.retain(|l| !l.starts_with("e.enfs"));
+        let mut reqs: Vec<Vec<String>> = vec![];
+        for i in 0..n_users { reqs.push(vec![sval(&format!("u{}", i)), sval("d1"), sval("data1"), sval("read")]); if i % 4 == 0 { reqs.push(vec![sval(&format!("u{}", i)), sval("d1"), sval("data2"), sval("read")]); } }
+        let req_strs: Vec<String> = reqs.iter().map(|r| r.join(",")).collect();
+        let mut row = String::new();
+        for ch in reqs.chunks(100) { row.push_str(&rec.exec_impl_only(w, &format!("e.enfs\t{}", enc_reqs(ch)))); }
+        rec.count_n("domain-matching:serial-grants", row.bytes().filter(|&c| c == b't').count() as u64);
+        let sc = Scenario { what: "domain-matching-function".into(), setup, history: vec![], reqs: req_strs, rows: vec![row], perms: vec![], irows: vec![],
+            threads: if thorough { 16 } else { 8 }, rounds: if thorough { 120 } else { 40 }, seed: rng.next(), writer: false, handle: "none".into(), helpers: false, rendezvous: false,
+            users: vec![], watchdog_ms: 60000, ctx: None, ctx_rows: vec![] };
+        let label = format!("{} threads={} distinct requests={} run {}", sc.what, sc.threads, sc.reqs.len(), si);
+        let out = rec.exec_impl_only(w, &format!("conc.run\t{}", esc(&serde_json::to_string(&sc).unwrap())));
+        rec.count(&format!("run:domain-matching:{}", out.split(|c| c == ':' || c == ' ').next().unwrap_or("")));
+        if out.starts_with("timeout") { rec.fail("deadlock", format!("[{}] a call never returned: {}", label, out)); }
+        else if out.starts_with("mismatch") { rec.fail("decision-not-serial", format!("[{}] {}", label, out)); }
+        else if !out.starts_with("ok") { rec.fail("concurrent-run-crashed", format!("[{}] {}", label, out)); }
+        else { rec.nontrivial_case(&label); rec.count_n("decisions-checked", (sc.threads * sc.rounds * sc.reqs.len()) as u64); }
+    }
 }
